@@ -6,5 +6,6 @@ CONSTANTS
   Kinds = {"rec", "cache"}
   UrgentAsync = TRUE
   RecLimit = 2
+  Servers = {FALSE, TRUE}
 INVARIANTS TypeOK C01 C02 C03 C10 C16 PosConsistent
 CHECK_DEADLOCK FALSE
